@@ -5,7 +5,7 @@
 From Coq Require Import String.
 From Coq Require Import List ZArith Bool Arith Lia.
 Import ListNotations.
-Require Import C19.Model C19.ProofsShape C19.ProofsGuard C19.gen.Guards.
+Require Import C19.Model C19.ProofsShape C19.ProofsGuard C19.ProofsAdd C19.gen.Guards.
 Open Scope nat_scope.
 
 Ltac destruct_inner t :=
@@ -137,3 +137,63 @@ Proof. intros c e a b. exact (no_silent_broadcast_generic FUEL (restrict_tensor 
 Theorem square_only_table : forall c e a b,
   row_square FUEL table c e = true -> lib_is_square a <> Ok true -> ~ can_return FUEL table c e a b.
 Proof. intros c e a b. exact (square_only_generic FUEL table c e a b). Qed.
+
+(* ------------------------------------------------------------------------------------ *)
+(** ** operator second operands *)
+
+(* the functions translated from the class-level overrides (diag_linear_operator.py, dense_linear_operator.py,
+   zero_linear_operator.py) are the transcriptions the theorems of ProofsAdd.v talk about *)
+Ltac crush_op :=
+  intros; try reflexivity;
+  unfold gen_diag_add_diagonal, lib_diag_add_diagonal, gen_diag_add, lib_diag_add, gen_constdiag_add, lib_constdiag_add,
+         gen_constdiag_mul_matrix, lib_constdiag_mul_matrix, gen_dense_add, lib_dense_add, gen_zero_add, lib_zero_add,
+         gen_zero_mul, lib_zero_mul, bind, try_catch, lift;
+  repeat (match goal with
+          | |- context [match ?x with _ => _ end] => destruct_inner x
+          end; try reflexivity; try congruence);
+  try (rewrite Nat.eqb_sym in *; congruence).
+
+Lemma gen_diag_add_diagonal_eq : forall a b, gen_diag_add_diagonal a b = lib_diag_add_diagonal a b.
+Proof. crush_op. Qed.
+Lemma gen_diag_add_eq : forall a b, gen_diag_add a b = lib_diag_add a b.
+Proof. intros. unfold gen_diag_add, lib_diag_add. rewrite gen_diag_add_diagonal_eq. crush_op. Qed.
+Lemma gen_constdiag_add_eq : forall a b, gen_constdiag_add a b = lib_constdiag_add a b.
+Proof. crush_op. Qed.
+Lemma gen_constdiag_mul_matrix_eq : forall a b, gen_constdiag_mul_matrix a b = lib_constdiag_mul_matrix a b.
+Proof. crush_op. Qed.
+Lemma gen_dense_add_eq : forall a b, gen_dense_add a b = lib_dense_add a b.
+Proof. crush_op. Qed.
+Lemma gen_zero_add_eq : forall a b, gen_zero_add a b = lib_zero_add a b.
+Proof. crush_op. Qed.
+Lemma gen_zero_mul_eq : forall a b, gen_zero_mul a b = lib_zero_mul a b.
+Proof. crush_op. Qed.
+
+(* FAST PATHS of the pinned tree that return self / the operand unchanged WITHOUT the exact guard of their entry point
+   (hand-written; a repair removes the path or puts the guard in front of it, a new unguarded fast path — or an
+   existing one moved in front of its check — is not in the list and breaks the theorem) *)
+Open Scope string_scope.
+Definition pinned_fastpaths : list fastpath :=
+  [FP "LinearOperator" E_add RetSelf [] [];                         (* `isinstance(other, numbers.Number) and other == 0` *)
+   FP "LinearOperator" E_add RetSelf ["ZeroLinearOperator"] [];     (* known finding C19-add-zero-operand-ignored *)
+   FP "SumLinearOperator" E_add RetSelf ["ZeroLinearOperator"] [];  (* same finding *)
+   FP "LinearOperator" E_mul RetOperand ["ZeroLinearOperator"] [];  (* known finding C19-mul-zero-operand-returns-other *)
+   FP "ZeroLinearOperator" E_add RetOperand [] []].                 (* known finding C19-zero-add-returns-other *)
+Close Scope string_scope.
+
+Lemma fastpaths_within_pinned :
+  forallb (fun f => fastpath_guarded f || existsb (fastpath_same f) pinned_fastpaths) fastpaths = true.
+Proof. vm_compute. reflexivity. Qed.
+
+(* operands of ANY kind (tensor or operator): the verdict function on the unrestricted table *)
+Definition exact_guarded_all (ce : string * entry) : bool := row_exact FUEL table (fst ce) (snd ce).
+Definition unguarded_all_matmul_cells :=
+  filter (fun ce => negb (exact_guarded_all ce)) (cells [E_matmul; E_rmatmul]).
+
+(* FINITE TABLE: the cells whose matmul / rmatmul lets SOME operand kind past the shape guard are the pinned overrides *)
+Lemma unguarded_all_matmul_within_pinned :
+  forallb (fun ce => mem_cell ce pinned_unguarded_exact) unguarded_all_matmul_cells = true.
+Proof. vm_compute. reflexivity. Qed.
+
+Theorem no_silent_broadcast_table_all : forall c e a b, 2 <= length a ->
+  row_exact FUEL table c e = true -> spec_shape e a b = None -> ~ can_return FUEL table c e a b.
+Proof. intros c e a b. exact (no_silent_broadcast_generic FUEL table c e a b). Qed.
